@@ -717,3 +717,27 @@ def p_c09(ctx):
         "traces_validated_against_impl": len(files), "trace_events": events, "samples": [{"doc": e0.get("doc"), "top": e0.get("top")}], "exhaustive": True},
         assumptions=["types are compared by friendly name where Targets.tla pins them down ('?' otherwise)",
                      "nested targets are constrained by the structural predicates only (one step, index = source order, key = written key, inside the parent's range)"])
+
+
+@pipeline("C19")
+def p_c19(ctx):
+    cases, n = tlc_cases(ctx, "MC_Targets.tla", "MC_Targets_quick.cfg" if ctx.quick else "MC_Targets_full.cfg", "mctargets19", timeout=3000)
+    pre = os.path.join(ctx.work, "sy")
+    p = ctx.run_hx(["syntax", "-cases", cases, "-out", pre])
+    info = json.loads(p.stdout.strip().splitlines()[-1])
+    if info["events"] == 0:
+        raise Infra("no case expressible in both syntaxes")
+    files = sorted(glob.glob(pre + ".*.ndjson"))
+    bad, events = ctx.validate_traces("TraceSyntax.tla", "TraceSyntax.cfg", files)
+    viols = []
+    for b in bad:
+        e = json.loads(open(b["file"]).read().splitlines()[b["l"] - 1])
+        viols.append({"what": b["what"], "replay": {"pipeline": "syntax", "case": {"schema": e["schema"], "doc": e["doc"]}, "native": e["native"], "json": e["json"]}})
+    e0 = json.loads(open(files[0]).readline())
+    finish(ctx, viols, {
+        "evaluations": 2 * info["events"], "distinct_nontrivial": info["cases"],
+        "rule": "case = a (schema variant, document) pair of MC_Targets that is expressible in both syntaxes (known block types with exactly the schema's labels, schema-known attributes): "
+                "labelled / nested blocks, literals of all types, lists, objects, references as \"${..}\" templates, templates with a literal prefix, any-attribute bodies with nested blocks, "
+                "count / for_each; both renderings are loaded and compared with each other and with TargetsP / the item tree",
+        "traces_validated_against_impl": len(files), "trace_events": events, "samples": [{"doc": e0["doc"], "native": e0["native"], "json": e0["json"]}], "exhaustive": True},
+        assumptions=["ranges and block-local (self / count / each) targets are excluded, as the statement says", "origins are compared by address (constraints lose precision in JSON strings)"])
